@@ -54,6 +54,14 @@ def conforms(kind, v, env):
         if not isinstance(v, list):
             return False, "container"
         return all(_int(x) for x in v), "element"
+    if kind == "lits":
+        if not isinstance(v, list):
+            return False, "container"
+        return all(isinstance(x, str) and x in ("a", "b") for x in v), "element"
+    if kind == "grids":
+        if not isinstance(v, list):
+            return False, "container"
+        return all(isinstance(x, list) and all(_int(y) for y in x) for x in v), "element"
     if kind == "words":
         if not isinstance(v, list):
             return False, "container"
@@ -122,4 +130,6 @@ def conforms(kind, v, env):
             if not isinstance(k, str):
                 return False, "key"
         return True, ""
+    if kind == "fkids":
+        return (isinstance(v, list) and all(isinstance(x, env.FLeaf) for x in v)), "element"
     raise ValueError(kind)
